@@ -29,7 +29,8 @@
          script of the grammar is determined by the script, sieve/WfFun.v).
          The same for get_filter_actions on parser trees and on reloaded sets (C19_parsed_tree_actions,
          C19_reloaded_read_back_full): actions with positional strings and value-less tags.
-   Not proved: address conditions, notsize, values with commas (known findings).  These are evaluated on the implementation and, for the model, by the differential runs. *)
+   Not proved: address conditions, values with commas (known findings).  notsize (repaired in 7391840) is one of the
+   condition forms of the theorems (DSize with its negation flag).  These are evaluated on the implementation and, for the model, by the differential runs. *)
 From Coq Require Import String.
 From Coq Require Import List NArith Bool Arith.
 From SV Require Import Bytes Lexer Text TextFacts.
